@@ -1018,8 +1018,8 @@ def run(tier: str, seed: int) -> int:
         "mutable PhyloNode graphs with parent pointers are modelled as immutable rose trees; a position is a path of child indices",
         "a behavioural probe on one witness (c09_impl.source_variants) selects the current / repaired variant of unrooted() in the model; the correspondence on all cases tests the choice",
         "floats: lengths are integers or dyadic rationals so that every sum the implementation forms is exact",
-        "TreeBuilder._unique_name renaming (trees with repeated/empty names), name_loaded flags and the four tree-to-tree distances are "
-        "outside the Coq model (oracle comparison only); root_at_midpoint is modelled on doubled lengths (exact halves)",
+        "name_loaded flags, Lin-Rajan-Moret / matching-cluster distances and multifurcating(k>2) are outside the Coq model (oracle "
+        "comparison only); root_at_midpoint is modelled on doubled lengths (exact halves)",
     ])
     rep.assumptions += [
         "oracle scope = the property's quantifier: distinct tip names, positive lengths on all edges, every internal node with >= 2 children; "
@@ -1083,7 +1083,9 @@ def run(tier: str, seed: int) -> int:
             "tree-to-tree distances: Robinson-Foulds (rooted/unrooted) is modelled and compared; Lin-Rajan-Moret and matching cluster "
             "(Hungarian assignment, scipy) only against an independent brute-force split-/cluster-set oracle (value, symmetry, zero iff "
             "equal topology) on trees with 4-6 tips",
-            "trees with repeated or empty node names (TreeBuilder._unique_name renaming) and newick comments are outside the model",
+            "node naming by the library (TreeBuilder._unique_name for unnamed / repeated / generated-looking names) is modelled "
+            "(Model/TreeNames.v) and compared, but no theorem is stated about it; newick comments and multifurcating(k>2) are outside "
+            "the model; distances after histories (warm caches, then transform) are compared with the RF model and the oracle",
             "unrooted() and get_sub_tree() on the pinned code are REFUTED (theorems *_refuted); the preservation theorems are for the "
             "repaired unrooted (notes/proposed_fixes/C09-1.diff)",
         ],
